@@ -1,5 +1,6 @@
 import Driver.Proto
 import PqModel.Aad
+import PqModel.EncWalk
 
 namespace Driver.Ops.C18
 open Driver PqModel.Aad
@@ -30,5 +31,22 @@ def handle (toks : List String) : Option String :=
       | none => "bad-op"
     | _, _, _, _, _ => "bad-op"
   | _ => none
+
+def envText (e : PqModel.EncWalk.Env) : String := s!"{e.1}:{e.2}"
+
+/-- `file.modules <path>` -> `ok <encfooter 0/1> <footer start> <plain footer bytes> <prefix hex> <file id hex> <off:len,...>`
+    (every envelope of the file, in offset order) or `bad ... | problems` / `err <why>` -/
+def handleIO (toks : List String) : IO (Option String) := do
+  match toks with
+  | ["file.modules", path] =>
+    let d ← try IO.FS.readBinFile path catch _ => return some "err unreadable"
+    match PqModel.EncWalk.walk d with
+    | .error e => return some s!"err {e.replace "\n" " "}"
+    | .ok w =>
+      let mods := w.dataMods ++ w.footerMods
+      let line := s!"{if w.encFooter then 1 else 0} {w.footerStart} {w.plainLen} {toHex w.aadPrefix.toList} {toHex w.fileUnique.toList} {showList envText mods}"
+      if w.problems.isEmpty then return some s!"ok {line}"
+      else return some s!"bad {line} | {" ; ".intercalate w.problems}"
+  | _ => return none
 
 end Driver.Ops.C18
